@@ -6,9 +6,12 @@ The synchronous part of `ActorRef::call` (`rpc.rs: internal_call` → `ActorCell
 (`send.status`), takes an admission ticket by a CAS loop (`admit.load`, `admit.cas`), boxes the
 message (`send.box`), pushes it on the mailbox channel (`send.enqueue`) and releases the ticket
 (`ticket.release`); only then does the caller await its one-shot reply port. The callee may
-handle messages, and its exit sequence — `set_status(Stopping)`, cleanup, `set_status(Stopped)`,
-and finally the drop of the mailbox receiver when the actor's task ends, which drops every
-queued message and with it the reply ports inside — may run between any two of these steps.
+handle messages, and its exit sequence — `set_status(Stopping)` at the end of the message loop,
+the drop of the mailbox receiver when `processing_loop` returns (it owns the port set), which
+drops every queued message and with it the reply ports inside, and `set_status(Stopped)` at the
+end of `ActorLifecycleGuard::cleanup` — may run between any two of these steps. (The model
+allows the receiver drop and `Stopped` in either order; the code drops the receiver first —
+found by the point-by-point differential.)
 
 One caller step = the code from one `verif::point` to the next (the E-THR engine
 `harness/hcore/src/bin/rpcrace.rs` grants exactly these steps to caller OS threads that poll
@@ -92,7 +95,7 @@ inductive Step where
   | setStopping
   /-- `set_status(Stopped)` (end of `ActorLifecycleGuard::cleanup`) -/
   | setStopped
-  /-- the actor's task ends: the mailbox receiver is dropped, everything queued with it -/
+  /-- `processing_loop` returns: the mailbox receiver is dropped, everything queued with it -/
   | dropRx
 
 def upd {α} (f : Nat → α) (i : Nat) (x : α) : Nat → α := fun j => if j = i then x else f j
@@ -138,7 +141,7 @@ def step (s : S) : Step → S
   | .setStopping => if s.status = 0 then { s with status := 1 } else s
   | .setStopped => if s.status = 1 then { s with status := 2 } else s
   | .dropRx =>
-    if s.status = 2 ∧ s.rxAlive = true then
+    if s.status ≥ 1 ∧ s.rxAlive = true then
       { s with rxAlive := false, queue := [], flushed := s.flushed ++ s.queue,
                ports := fun j => if j ∈ s.queue then .closed else s.ports j }
     else s
